@@ -143,6 +143,36 @@ class PermutingPool:
         return out
 
 
+class ScriptedExecutor:
+    """Executor-style pool-like object (submit + map, like concurrent.futures executors): work is done at submit time in the
+    calling thread, but the futures *complete* in a scripted permutation, so anything that gathers them in completion order
+    (as_completed, callbacks) sees them out of submission order. map() returns results in input order, as Executor.map must."""
+
+    def __init__(self, seed=0):
+        self.seed = int(seed)
+        self.calls = 0
+
+    def __reduce__(self):
+        raise NotImplementedError("pool objects cannot be passed between processes or pickled")
+
+    def submit(self, f, *a, **k):
+        from concurrent.futures import Future
+
+        fut = Future()
+        fut.set_running_or_notify_cancel()
+        try:
+            fut.set_result(f(*a, **k))
+        except BaseException as e:  # noqa
+            fut.set_exception(e)
+        return fut
+
+    def map(self, f, *iterables, timeout=None, chunksize=1):
+        return [f(*args) for args in zip(*iterables)]
+
+    def shutdown(self, wait=True, **k):
+        pass
+
+
 def simple_target_spec(rng, d, mode="vector", zero=False, interior=True):
     """A Gaussian-likelihood target with the posterior well inside the cube (in u)."""
     kinds, a, b, centre, width = [], [], [], [], []
